@@ -389,7 +389,13 @@ def canon_compare(script, impl, model):
             # ties: different but equivalent tops are settled by the second pass / flags of equivalent
             # tops agree on homogeneous sets; on mixed sets only the oracle applies
             if op == "flags" and not script_is_mixed(script):
-                diff = i if diff is None else diff
+                # equivalent approximate tops (equal difference) may differ in `optimized`
+                fa, fb = parse_flags(a), parse_flags(b)
+                if fa.get("approx") == "1" and fb.get("approx") == "1":
+                    fa.pop("opt", None)
+                    fb.pop("opt", None)
+                if fa != fb:
+                    diff = i if diff is None else diff
             elif op == "top" and (a == "none") != (b == "none"):
                 diff = i if diff is None else diff
         elif a != b and op not in ("top", "flags", "list"):
